@@ -218,11 +218,22 @@ func runC05E2E(t *testing.T, rng *rand.Rand, rec *sim.Rec, tier string, caseNo i
 		UDPListeners: []*net.UDPAddr{{IP: sim.ServerIP4, Port: 3478}},
 		TCPListeners: []*net.TCPAddr{{IP: sim.ServerIP4, Port: 3478}},
 	}
+	// a server listening on the wildcard address of a host with two addresses: the client is
+	// configured with the second one, the server's datagrams leave from the first
+	otherAddr := caseNo%2 == 0 && (caseNo/2)%3 == 2
+	serverAddr := "10.0.0.1:3478"
+	if otherAddr {
+		cfg.UDPListeners = []*net.UDPAddr{{IP: net.IPv4zero.To4(), Port: 3478}}
+		serverAddr = "10.0.0.9:3478"
+	}
 	w, err := sim.NewWorld(cfg, rec, rng, true)
 	if err != nil {
 		t.Fatal(err)
 	}
 	defer w.Shutdown()
+	if otherAddr {
+		w.ServerUDP[0].SetEgressIP(sim.ServerIP4)
+	}
 	w.Net.LogSends = false
 	logs := sim.NewLogSink()
 	lostBind := caseNo%2 == 0 && (caseNo/2)%3 == 1
@@ -264,7 +275,7 @@ func runC05E2E(t *testing.T, rng *rand.Rand, rec *sim.Rec, tier string, caseNo i
 		}
 		defer cl.Close()
 	} else {
-		rc, err := sim.NewRealClient(w.Net, net.IPv4(10, 1, 0, 1).To4(), 5000, "10.0.0.1:3478", "alice", "pw-a", "verif.test", 0, logs, nil)
+		rc, err := sim.NewRealClient(w.Net, net.IPv4(10, 1, 0, 1).To4(), 5000, serverAddr, "alice", "pw-a", "verif.test", 0, logs, nil)
 		if err != nil {
 			t.Fatal(err)
 		}
@@ -297,7 +308,30 @@ func runC05E2E(t *testing.T, rng *rand.Rand, rec *sim.Rec, tier string, caseNo i
 			toClient, toPeer = append(toClient, a), append(toPeer, b)
 		}
 		peer.UDP.Drain()
-		for i := 0; i < n; i++ {
+		concurrent := lostBind && phase == "indications-or-early-channel"
+		if concurrent {
+			// four application goroutines write at once while the client still uses Send
+			// indications (its ChannelBind is unanswered): every datagram arrives once, unaltered
+			var wg sync.WaitGroup
+			for g := 0; g < 4; g++ {
+				wg.Add(1)
+				go func() {
+					defer wg.Done()
+					for i := g; i < n; i += 4 {
+						if _, err := conn.WriteTo(toPeer[i], peer.Addr); err != nil {
+							rec.Violate("e2e-write", phase, "WriteTo failed: %v", err)
+
+							return
+						}
+					}
+				}()
+			}
+			for i := 0; i < n; i++ {
+				_, _ = peer.UDP.WriteTo(toClient[i], relay)
+			}
+			wg.Wait()
+		}
+		for i := 0; i < n && !concurrent; i++ {
 			_, _ = peer.UDP.WriteTo(toClient[i], relay)
 			if _, err := conn.WriteTo(toPeer[i], peer.Addr); err != nil {
 				rec.Violate("e2e-write", phase, "WriteTo failed: %v", err)
@@ -328,6 +362,23 @@ func runC05E2E(t *testing.T, rng *rand.Rand, rec *sim.Rec, tier string, caseNo i
 
 			return
 		}
+		if concurrent {
+			// the writers' relative order is free: compare as multisets
+			left := map[string]int{}
+			for _, b := range toPeer {
+				left[string(b)]++
+			}
+			for i, d := range got {
+				if left[string(d.Data)] == 0 || d.Src.String() != relay.String() {
+					rec.Violate("e2e-altered", phase+"/to-peer/concurrent-writers", "datagram %d of %d toward the peer (%s, 4 concurrent writers): %d bytes %x from %s is none of the datagrams written (or arrived once more than written)", i, n, phase, len(d.Data), head(d.Data), d.Src)
+
+					return
+				}
+				left[string(d.Data)]--
+			}
+			got = nil
+			rec.FP("e2e/concurrent-writers-on-indications")
+		}
 		for i, d := range got {
 			if !bytes.Equal(d.Data, toPeer[i]) || d.Src.String() != relay.String() {
 				rec.Violate("e2e-altered", phase+"/to-peer", "datagram %d toward the peer (%s): got %d bytes %x from %s", i, phase, len(d.Data), head(d.Data), d.Src)
@@ -336,7 +387,7 @@ func runC05E2E(t *testing.T, rng *rand.Rand, rec *sim.Rec, tier string, caseNo i
 			}
 		}
 		rec.EvN("e2e-datagrams-compared", 2*n)
-		rec.FP("e2e/%s/burst=%d/tcp=%v/bind-response-lost=%v", phase, min(n/10, 3), overTCP, lostBind)
+		rec.FP("e2e/%s/burst=%d/tcp=%v/bind-response-lost=%v/server-answers-from-another-address=%v", phase, min(n/10, 3), overTCP, lostBind, otherAddr)
 	}
 	// a second socket on the peer's host that the client never writes to: its datagrams are
 	// admitted by the host's permission and travel in Data indications, never in ChannelData
